@@ -36,6 +36,9 @@ def main(tier, seed):
                 for s in c['sessions']:
                     s['opts'] = dict(s['opts'], strict=True) if r.chance(0.5) else s['opts']
             c['c13'] = False
+            if i % 5 == 4:
+                # the database fails while the session ends (commit / rollback / release raise)
+                c['end_fault'] = [r.below(len(c['sessions'])), 'ioerr']
             yield c
             i += 1
 
